@@ -84,6 +84,7 @@ structure CaseObs where
   searches : List SearchObs
   alives : List ObsMsg
   stopTime : Option Int     -- when the announcer was stopped
+  annUpto : Option Int      -- until when the announcer was observed (stop time, or the end of the case)
   byebyes : List ObsMsg
 deriving Repr
 
@@ -131,7 +132,8 @@ def okNotify (c : CaseObs) (nts : Str) (kind : Nat) (m : ObsMsg) : Bool :=
 def keyOf (m : ObsMsg) : Str × Str := (m.st, m.usn)
 
 /-- round-robin: the announcements repeat with the period of the table, the first round is (a
-    prefix of) the table in some order, equally spaced in time, none after the stop -/
+    prefix of) the table in some order, equally spaced in time, none after the stop,
+    and it does not cease while the announcer is observed -/
 def okAlives (c : CaseObs) : Bool :=
   let e := (expAll c.tree).map fun e => (e.st, e.usn)
   let a := c.alives.map keyOf
@@ -143,6 +145,12 @@ def okAlives (c : CaseObs) : Bool :=
         ts.getD i 0 < ts.getD (i + 1) 0 && ts.getD (i + 1) 0 - ts.getD i 0 == ts.getD 1 0 - ts.getD 0 0)
   && (match c.stopTime with
       | some ts => c.alives.all fun m => m.time ≤ ts
+      | none => true)
+  -- "periodically": the cycle goes on for as long as the announcer is observed
+  && (match c.annUpto with
+      | some u =>
+        let ts := c.alives.map (·.time)
+        ts.length < 2 || decide (u < ts.getD (ts.length - 1) 0 + (ts.getD 1 0 - ts.getD 0 0))
       | none => true)
 
 def okByebyes (c : CaseObs) : Bool :=
